@@ -27,6 +27,8 @@ import (
 	storelib "github.com/uber/kraken/lib/store"
 	"github.com/uber/kraken/lib/store/disk"
 	"github.com/uber/kraken/lib/store/metadata"
+	"github.com/uber/kraken/utils/log"
+	"go.uber.org/zap"
 
 	"verif/harness/internal/ev"
 	"verif/harness/internal/gen"
@@ -53,6 +55,10 @@ func (f rawFactory) Create(suffix string) metadata.Metadata {
 }
 
 func init() {
+	zc := zap.NewProductionConfig()
+	zc.OutputPaths = []string{}
+	zc.ErrorOutputPaths = []string{}
+	log.ConfigureLogger(zc)
 	metadata.Register(regexp.MustCompile(`^_vc07mv[a-z]$`), rawFactory{true})
 	metadata.Register(regexp.MustCompile(`^_vc07nm[a-z]$`), rawFactory{false})
 }
